@@ -14,6 +14,7 @@ import Rox.Lemmas.MirrorAll
 import Rox.Lemmas.MirrorNsAll
 import Rox.Lemmas.CompleteAll
 import Rox.Lemmas.CompleteTables
+import Rox.Lemmas.CompleteExample
 import Rox.Lemmas.Emits
 import Rox.Props.C01
 
@@ -345,5 +346,19 @@ theorem wellformed_document_gets_its_tree (txt : Bytes) (hv : ValidUtf8 txt) (x 
   obtain ⟨d, hd⟩ := wellformed_is_accepted txt hv x hwf hr hs hns opt hlim
   exact ⟨d, hd, Rox.Lemmas.accepted_namespaces_resolve Generated.tables C01.generated_tables_ok
     Rox.Lemmas.generated_tables_grammar txt hv opt hdtd d hd⟩
+
+/-- The hypotheses of `wellformed_is_accepted` are satisfiable by a non-trivial document:
+`<p:a xmlns:p='u' b="1">x&amp;<!--c--><?q v?><e/></p:a>` with its abstract document (a namespace
+declaration, a prefixed name, both quotes, a reference, a comment, a PI, an empty-element tag)
+satisfies all six — and is therefore accepted, by the theorem, not by evaluation. -/
+theorem wellformed_is_accepted_example :
+    (ValidUtf8 Rox.Lemmas.completeExampleTxt ∧
+      Rox.Spec.Grammar.GDocWf Generated.tables Rox.Lemmas.completeExampleDoc ∧
+      Rox.Spec.Grammar.RDoc Generated.tables Rox.Lemmas.completeExampleDoc Rox.Lemmas.completeExampleTxt ∧
+      Rox.Spec.Complete.DocStrict Rox.Lemmas.completeExampleDoc ∧
+      Rox.Spec.Complete.DocNsWf Rox.Lemmas.completeExampleDoc ∧
+      Rox.Spec.Complete.WithinLimits Rox.Lemmas.completeExampleDoc {}) ∧
+    ∃ d, parse Generated.tables Rox.Lemmas.completeExampleTxt {} = .ok d :=
+  ⟨Rox.Lemmas.completeExample_hyps, Rox.Lemmas.completeExample_accepted⟩
 
 end Rox.Props.C03
